@@ -114,6 +114,9 @@ def prefix_scan_rule(ctx, rule):
 
 
 def run(ctx):
+    ctx.rule("R13.5", "the boundary validators BufferQueue::eat relies on when it pops the matched prefix (UTF8::validate_prefix / validate_suffix) test the code point at the boundary (shared with R11.8)")
+    from .C11 import utf8_boundary_validators
+    ctx.guard("R13.5", "boundary", lambda: utf8_boundary_validators(ctx, "R13.5"))
     ctx.rule("R13.1", "no empty buffer is stored: pushes on the false edge of len32()==0; every shrink of the front buffer is followed by an emptiness test that pops it")
     ctx.rule("R13.2", "eat() mutates the queue only after the whole pattern matched")
     ctx.rule("R13.3", "peek/next/pop_except_from use the front buffer only; peek decodes a char; SmallCharSet membership is bit n, bytes >= 64 never members")
